@@ -16,7 +16,10 @@ TRUSTED = [
     "(kind, table, name, reflected, compare_to is not None); the theorems are about predicates over the full abstract objects",
 ]
 ASSUME = [
-    "schemas well formed as for C06; universe as for C06 (no foreign keys, so the foreign_key_constraint filter type is outside)",
+    "schemas well formed as for C06; universe as for C06 (tables, columns, unique constraints, indexes, foreign keys: all five filter types)",
+    "acc (the objects 'neither filter rejects'): the operation's own names are accepted, the include_object calls the unfiltered "
+    "comparison makes for its table and object say yes, and - foreign keys being matched by signature - no reflected foreign key with "
+    "the signature of an added key is name-rejected",
     "the theorems hold for ALL predicates include_object(object, reflected, compare_to) and include_name(name,type,parents) "
     "(Section variables); the correspondence samples predicates that are finite decision tables",
 ]
@@ -35,7 +38,7 @@ TECHNIQUE = ("Coq proof, parametric in both predicates (Section variables), that
 LEVEL_TEXT = ("Machine-checked theorems for all predicates and all well-formed schema pairs of the modelled universe about the "
               "transcription of the comparators with filter calls at the Python call sites; the transcription (operations and call "
               "sites) is compared exactly with the real code on SQLite on every run.")
-LEVEL_NOTE = ("Partial: universe of C06 (no foreign keys / defaults), SQLite only; conservativity is membership-level (per operation), "
+LEVEL_NOTE = ("Partial: universe of C06, SQLite only; conservativity is membership-level (per operation), "
               "not list equality.")
 
 
@@ -48,6 +51,8 @@ def _refs(schemas):
                 refs.add(("c", t["name"], c[0]))
             for k in t["cons"]:
                 refs.add(("u" if k[0] == "uq" else "i", t["name"], k[1]))
+            for f in t.get("fks", []):
+                refs.add(("f", t["name"], f[0]))
     return sorted(refs)
 
 
@@ -81,7 +86,7 @@ def _cases(rnd, n):
         A, B, desc = S.gen_pair(rnd)
         for _ in range(rnd.choice([1, 2])):
             B2, d = S.mutate(rnd, B)
-            if B2 is not None:
+            if B2 is not None and S.no_dangling(A, B2):
                 B = B2
         yield {"A": A, "B": B, "f": gen_filter(rnd, A, B)}
 
@@ -100,7 +105,7 @@ def q_ref(r):
     k = r[0]
     if k == "s": return "NSchema"
     if k == "t": return "(NTable %d)" % r[1]
-    return "(%s %d %d)" % ({"c": "NColumn", "u": "NUq", "i": "NIx"}[k], r[1], r[2])
+    return "(%s %d %d)" % ({"c": "NColumn", "u": "NUq", "i": "NIx", "f": "NFk"}[k], r[1], r[2])
 
 
 def q_filter(f):
@@ -123,6 +128,8 @@ def make_filters(f, log):
             return ("i", tname, S.un(name, "k"))
         if type_ == "unique_constraint":
             return ("u", tname, S.un(name, "k"))
+        if type_ == "foreign_key_constraint":
+            return ("f", tname, S.un(name, "f"))
         raise AssertionError("unexpected filter type %r" % (type_,))
 
     def include_object(obj, name, type_, reflected, compare_to):
@@ -141,7 +148,8 @@ def make_filters(f, log):
             r = ("t", S.un(name, "t"))
         else:
             tname = S.un(parents["table_name"], "t")
-            r = ({"column": "c", "index": "i", "unique_constraint": "u"}[type_], tname, S.un(name, "c" if type_ == "column" else "k"))
+            r = ({"column": "c", "index": "i", "unique_constraint": "u", "foreign_key_constraint": "f"}[type_], tname,
+                 S.un(name, {"column": "c", "foreign_key_constraint": "f"}.get(type_, "k")))
         log.append(["n", list(r)])
         return ntab.get(r, f["name_d"])
 
